@@ -177,12 +177,33 @@ def r3(ctx, rep):
                     rep.finding(R3, f'C01.R3/EllipsisExampleHelper/{rc.short}', m.relfile(c.module), rc.short,
                                 'a logic rule uses the documentation helper that adds nodes')
     # Branch.close only appends the closure node; extend only maps append
-    for name, frag in (('close', 'return self.append(ClosureNode('), ('extend', 'map(self.append, nodes)'), ('__iadd__', 'self.append(other)')):
+    # Branch.close / extend / += folded: they go through Branch.append (one node at a time, in order)
+    itb = Interp(dict(ClosureNode=lambda mp: ('ClosureNode', dict(mp)), Node=Obj('Node', PropMap=Obj('PropMap', Closure={'flag': 'closure'})), Mapping=dict,
+                      isinstance=isinstance), where='proof/common.py Branch.close/extend')
+
+    def mkbranch():
+        log = []
+        b_ = Obj('branch', __srcclass__=(m, ClassRef(COMMON, 'Branch')))
+        b_.append = lambda node: (log.append(node), b_)[1]
+        b_.extend = lambda nodes: itb.call(m.func(COMMON, 'Branch.extend'), [b_, nodes])
+        return b_, log
+    for name in ('close', 'extend', '__iadd__'):
         fn = m.func(COMMON, f'Branch.{name}')
-        ok = frag in astq.u(fn)
+        b_, log = mkbranch()
+        if name == 'close':
+            r = itb.safe(fn, [b_])
+            ok = r is b_ and len(log) == 1 and isinstance(log[0], tuple) and log[0][0] == 'ClosureNode'
+        elif name == 'extend':
+            r = itb.safe(fn, [b_, iter(['n1', 'n2', 'n3'])])
+            ok = r is b_ and log == ['n1', 'n2', 'n3']
+        else:
+            r = itb.safe(fn, [b_, ['n1', 'n2']])
+            b2, log2 = mkbranch()
+            r2 = itb.safe(fn, [b2, {'sentence': 'S'}])
+            ok = r is b_ and log == ['n1', 'n2'] and r2 is b2 and log2 == [{'sentence': 'S'}]
         rep.instance(R3, ok=ok, nontrivial=f'Branch.{name}')
         if not ok:
-            rep.finding(R3, f'C01.R3/Branch.{name}', m.loc(COMMON, fn), f'Branch.{name}', f'no longer goes through Branch.append (`{frag}`)')
+            rep.finding(R3, f'C01.R3/Branch.{name}', m.loc(COMMON, fn), f'Branch.{name}', f'does not add its nodes through Branch.append, in order (appended {log}, returned {r!r})')
 
 
 class MBranch:
